@@ -80,7 +80,6 @@ impl Processor {
                     | Expression::Identifier(_)
                     | Expression::Number(_)
                     | Expression::Nil(_)
-                    | Expression::InterpolatedString(_)
                     | Expression::String(_)
                     | Expression::True(_)
                     | Expression::VariableArguments(_) => None,
@@ -104,6 +103,7 @@ impl Processor {
                     | Expression::Function(_)
                     | Expression::If(_)
                     | Expression::Index(_)
+                    | Expression::InterpolatedString(_)
                     | Expression::Parenthese(_)
                     | Expression::Table(_)
                     | Expression::TypeCast(_)
